@@ -67,5 +67,5 @@ def nontrivial(c, out):
 
 
 tags = cc.common_tags
-ESSENTIAL_TAGS = ["kcenters", "kmedoids", "hybrid", "warm-init", "ti", "estimator-form", "start-cold", "start-centers",
+ESSENTIAL_TAGS = ["more-clusters-than-frames", "kcenters", "kmedoids", "hybrid", "warm-init", "ti", "estimator-form", "start-cold", "start-centers",
                   "start-state", "start-pairs", "explicit-proposals", "random-proposals", "matrix", "euclidean", "manhattan"]
